@@ -30,11 +30,18 @@ type c17hConn struct {
 	network.Conn
 	local, remote ma.Multiaddr
 	closed        atomic.Bool
+	dir           network.Direction
 }
 
 func (c *c17hConn) LocalMultiaddr() ma.Multiaddr  { return c.local }
 func (c *c17hConn) RemoteMultiaddr() ma.Multiaddr { return c.remote }
 func (c *c17hConn) IsClosed() bool                { return c.closed.Load() }
+
+// the direction a swarm connection reports: connections with an odd index are
+// outbound (dialed from the listen socket), the others inbound
+func (c *c17hConn) Stat() network.ConnStats {
+	return network.ConnStats{Stats: network.Stats{Direction: c.dir}}
+}
 
 type c17hNet struct {
 	network.Network
@@ -137,11 +144,14 @@ func c17hExec(t *testing.T, out *verifh.Out, sc *c17hScript) []int64 {
 	}
 	conns := make([]*c17hConn, sc.nconn)
 	for i := range conns {
-		conns[i] = &c17hConn{local: c17hMain, remote: ma.StringCast(fmt.Sprintf("/ip4/1.2.3.%d/tcp/1000", i+1))}
+		conns[i] = &c17hConn{local: c17hMain, remote: ma.StringCast(fmt.Sprintf("/ip4/1.2.3.%d/tcp/1000", i+1)), dir: network.DirInbound}
+		if i%2 == 1 {
+			conns[i].dir = network.DirOutbound
+		}
 	}
 	// the manager's worker is asynchronous: after every report a marker report
 	// on a separate listen address is sent and awaited (the queue is FIFO)
-	marker := &c17hConn{local: c17hMarker, remote: ma.StringCast("/ip4/1.2.9.9/tcp/1000")}
+	marker := &c17hConn{local: c17hMarker, remote: ma.StringCast("/ip4/1.2.9.9/tcp/1000"), dir: network.DirInbound}
 	seq := 0
 	barrier := func() {
 		seq++
